@@ -753,8 +753,10 @@ func (fsm *fsm) stateChange(nextState bgp.FSMState, reason *fsmStateReason) {
 			}
 		}
 
-		fsm.isEBGP = conf.IsEBGPPeer(fsm.gConf)
-		fsm.isConfed = fsm.gConf.IsConfederationMember(conf.Config.PeerAs)
+		// Use the AS the peer sent in its OPEN: the configured peer AS is 0
+		// when ASN negotiation was skipped (e.g. dynamic / unnumbered peers).
+		fsm.isEBGP = remoteAS != localAS
+		fsm.isConfed = fsm.gConf.IsConfederationMember(remoteAS)
 		fsm.isTreatAsWithdraw = conf.ErrorHandling.Config.TreatAsWithdraw
 		// reset the state set by the previous session
 		fsm.twoByteAsTrans = false
